@@ -19,26 +19,43 @@ import (
 	"github.com/trajectoryjp/spatial_id_go/v4/transform"
 )
 
-// shared arguments: every call below reads these same slices and objects
+// shared arguments: every call below reads these same slices and objects. The list
+// arguments are windows into larger arrays (len < cap) with sentinel entries behind them, as a
+// caller's `all[:k]` would be: a callee that appends to its read-only argument writes into
+// memory that other goroutines share. The backing arrays are part of SharedArgs, so the
+// digests see such a write, and two concurrent calls doing it are a write/write race.
 var (
-	shIDs       = []string{"3/1/2/3/-1", "3/1/2/3/0", "4/2/4/4/-2", "4/3/5/4/1"}
-	shIDsB      = []string{"3/1/2/3/5", "5/5/9/5/-3"}
-	shSp        = []string{"3/-1/1/2", "3/0/1/2", "4/-2/2/4"}
-	shSpB       = []string{"3/1/0/0", "5/-3/5/9"}
+	shIDsBack   = []string{"3/1/2/3/-1", "3/1/2/3/0", "4/2/4/4/-2", "4/3/5/4/1", "guard/0", "guard/1", "guard/2", "guard/3"}
+	shIDs       = shIDsBack[:4]
+	shIDsBBack  = []string{"3/1/2/3/5", "5/5/9/5/-3", "guard/0", "guard/1", "guard/2", "guard/3"}
+	shIDsB      = shIDsBBack[:2]
+	shSpBack    = []string{"3/-1/1/2", "3/0/1/2", "4/-2/2/4", "guard/0", "guard/1", "guard/2", "guard/3"}
+	shSp        = shSpBack[:3]
+	shSpBBack   = []string{"3/1/0/0", "5/-3/5/9", "guard/0", "guard/1", "guard/2", "guard/3"}
+	shSpB       = shSpBBack[:2]
 	shP1, _     = object.NewPoint(139.70, 35.60, 10)
 	shP2, _     = object.NewPoint(139.7005, 35.6004, -40)
-	shPts       = []*object.Point{shP1, shP2}
+	shPG, _     = object.NewPoint(1, 2, 3)
+	shPtsBack   = []*object.Point{shP1, shP2, shPG, shPG, shPG}
+	shPts       = shPtsBack[:2]
 	shTile, _   = object.NewTileXYZ(3, 1, 2, 25, 100)
 	shTile2, _  = object.NewTileXYZ(3, 1, 2, 25, 101)
-	shTiles     = []*object.TileXYZ{shTile, shTile2}
-	shQV        = []*object.QuadkeyAndVerticalID{object.NewQuadkeyAndVerticalID(3, 27, 3, -1, 0, 0), object.NewQuadkeyAndVerticalID(6, 2914, 7, 75, 256, -256)}
+	shTileG, _  = object.NewTileXYZ(1, 1, 1, 25, 7)
+	shTilesBack = []*object.TileXYZ{shTile, shTile2, shTileG, shTileG, shTileG}
+	shTiles     = shTilesBack[:2]
+	shQVG       = object.NewQuadkeyAndVerticalID(1, 1, 1, 1, 0, 0)
+	shQVBack    = []*object.QuadkeyAndVerticalID{object.NewQuadkeyAndVerticalID(3, 27, 3, -1, 0, 0), object.NewQuadkeyAndVerticalID(6, 2914, 7, 75, 256, -256), shQVG, shQVG, shQVG}
+	shQV        = shQVBack[:2]
 	shExtObj, _ = object.NewExtendedSpatialID("3/1/2/5/-7")
-	shProj      = []*object.ProjectedPoint{{X: 15551000, Y: 4250000, Alt: 5}}
+	shProjBack  = []*object.ProjectedPoint{{X: 15551000, Y: 4250000, Alt: 5}, {X: 1, Y: 2, Alt: 3}, {X: 1, Y: 2, Alt: 3}}
+	shProj      = shProjBack[:1]
 )
 
-// SharedArgs returns pointers to every shared argument object.
+// SharedArgs returns pointers to every shared argument object (for the lists: the window
+// header and the whole backing array, spare capacity included).
 func SharedArgs() []any {
-	return []any{&shIDs, &shIDsB, &shSp, &shSpB, shP1, shP2, &shPts, shTile, shTile2, &shTiles, &shQV, shExtObj, &shProj}
+	return []any{&shIDs, &shIDsB, &shSp, &shSpB, shP1, shP2, &shPts, shTile, shTile2, &shTiles, &shQV, shExtObj, &shProj,
+		&shIDsBack, &shIDsBBack, &shSpBack, &shSpBBack, &shPtsBack, &shTilesBack, &shQVBack, &shProjBack}
 }
 
 func canon(list []string, err error) string {
